@@ -172,7 +172,9 @@ def handle : Handler := fun op inp impl => do
       let wj := mkObj [("ro", if r.roGone then .null else roToJson r.w.ro), ("wl", optJ wlToJson r.w.wl), ("br", optJ brToJson r.w.br),
                        ("net", netToJson r.w.net), ("mem", memToJson r.w.mem)]
       let brW := r.writes.any fun x => x == "createBR" || x == "updateBR" || x == "patchBR" || x == "deleteBR" || x == "patchBRRolloutID"
-      return { model := mkObj [("requeue", boolJ r.requeue), ("err", boolJ r.err), ("roGone", boolJ r.roGone), ("w", wj), ("brWritten", boolJ brW)],
+      return { model := mkObj ([("requeue", boolJ r.requeue), ("err", boolJ r.err), ("roGone", boolJ r.roGone), ("w", wj)] ++
+                 -- (the walks of the cluster / closedloop suites emit their Rollout reconciles without this field)
+                 (if (jopt impl "brWritten").isSome then [("brWritten", boolJ brW)] else [])),
                holds := holds, tags := tags }
   | "fault" => RV.Drv.Fault.handleFault ["C01", "C02", "C03", "C04", "C05", "C06", "C07", "C09", "C10", "C18"] impl
   | _ => .error s!"rolloutsm: unknown op {op}"
